@@ -187,7 +187,7 @@ def r02_1(ctx):
         ctx.functions.add(q)
     # item check
     if item_dom is None:
-        ctx.fail('R02.3', 'check_data', ctx.where(fn_cd), 'check_data is not a plain loop applying the item check',
+        ctx.fail('R02.3', 'check_data', ctx.where(fn_cd), 'what check_data accepts cannot be established: it is not one item check applied to every item, and executed on lists (one value, one position at a time) it does not end the same way for the same items - or lets a bad item through',
                  construct=f'{fn_cd.qname}::shape')
     else:
         wi = ctx.where(item_fn)
